@@ -21,6 +21,7 @@ package main
 // Hash and From of every member after the call.
 
 import (
+	"bytes"
 	"encoding/hex"
 	"encoding/json"
 	"fmt"
@@ -160,6 +161,53 @@ func tcFiguresDiff(m *evmtypes.MsgEthereumTx, orig *ethtypes.Transaction, baseFe
 	return d
 }
 
+// tcMsgSenderDiff: MsgEthereumTx.GetSender / GetSigners must report the account whose key signed the transaction.
+func tcMsgSenderDiff(m *evmtypes.MsgEthereumTx, orig *ethtypes.Transaction) string {
+	signer := ethtypes.LatestSignerForChainID(orig.ChainId())
+	want, err := ethtypes.Sender(signer, orig)
+	if err != nil {
+		return ""
+	}
+	var got common.Address
+	var gerr error
+	if p := catch(func() { got, gerr = m.GetSender(orig.ChainId()) }); p != "" {
+		return "GetSender of the returned message panics: " + p
+	}
+	if gerr != nil {
+		return "GetSender of the returned message fails: " + gerr.Error()
+	}
+	if got != want {
+		return fmt.Sprintf("GetSender of the returned message reports %s, the transaction was signed by %s (From field of the message: %q)", got.Hex(), want.Hex(), m.From)
+	}
+	var sg []sdk.AccAddress
+	if p := catch(func() { sg = m.GetSigners() }); p == "" && len(sg) == 1 && !bytes.Equal(sg[0].Bytes(), want.Bytes()) {
+		return fmt.Sprintf("GetSigners of the returned message reports %s, the transaction was signed by %s (From field of the message: %q)", common.BytesToAddress(sg[0].Bytes()).Hex(), want.Hex(), m.From)
+	}
+	return ""
+}
+
+// tcReusedObjectDiff: one message object loaded with transaction A (From set, as Sign does), then with transaction B,
+// must report B's sender.
+func tcReusedObjectDiff(a, b *ethtypes.Transaction) string {
+	signer := ethtypes.LatestSignerForChainID(a.ChainId())
+	sa, err := ethtypes.Sender(signer, a)
+	if err != nil {
+		return ""
+	}
+	var m evmtypes.MsgEthereumTx
+	if err := m.FromEthereumTx(a); err != nil {
+		return ""
+	}
+	m.From = sa.Hex()
+	if err := m.FromEthereumTx(b); err != nil {
+		return ""
+	}
+	if d := tcMsgSenderDiff(&m, b); d != "" {
+		return "a message object loaded with another transaction before: " + d
+	}
+	return ""
+}
+
 func coqStrEsc(s string) (string, error) {
 	for _, c := range s {
 		if c < 32 || c > 126 {
@@ -268,6 +316,16 @@ func tcRunUnwrap(id string, in tcUnwrapInput) (c Case, err error) {
 	groups := map[string]*evGroup{}
 	groupOrder := []string{}
 	nFound, nRefused := 0, 0
+
+	// one message object reused for two transactions of the pool (both orders)
+	if len(pool) >= 2 && len(in.Lookups) > 0 {
+		for _, ij := range [][2]int{{0, 1}, {1, 0}} {
+			if d := tcReusedObjectDiff(pool[ij[0]].tx, pool[ij[1]].tx); d != "" {
+				oracle = append(oracle, fmt.Sprintf("tx%d then tx%d: %s", ij[0], ij[1], d))
+			}
+		}
+		tags["unwrap:reused-message-object"] = true
+	}
 
 	for k, lk := range in.Lookups {
 		if len(lk.Env) < 1 || len(lk.Env) > 4 {
@@ -433,6 +491,11 @@ func tcRunUnwrap(id string, in tcUnwrapInput) (c Case, err error) {
 					signer := ethtypes.LatestSignerForChainID(orig.tx.ChainId())
 					if a, b := senderStr(signer, back), senderStr(signer, orig.tx); a != b {
 						fail("sender recovered from the returned transaction %s != sender of the transaction with the requested hash %s", a, b)
+					}
+					// the message's own "recoverable sender" API (GetSender recovers from the signature; GetSigners is what the
+					// Cosmos side uses), whatever the From field of the envelope claims
+					if d := tcMsgSenderDiff(got, orig.tx); d != "" {
+						fail("%s (asked for %s)", d, reqText)
 					}
 					if d := tcFieldsDiff(orig.tx, back); len(d) > 0 {
 						fail("fields of the returned transaction differ from the transaction with the requested hash: %s", strings.Join(d, ","))
